@@ -6,26 +6,31 @@ from check import Result
 from vlib.shrink import ddmin
 
 META = {
-    'level_text': 'Proved for all inputs: framing_chunk_independent (+_bytes, framing_eq_unchunked) — the result of AsynConn.readline / '
-                  'readbytes and everything left unread depend only on the concatenation of the received chunks (any end-of-line '
-                  'sequence, any buffer, any two chunkings).  The transaction model (an acceptor of time-stamped event sequences: lock, '
-                  'sleeps, flush, send, recv, close, reconnect, callbacks, per caller program counters following io.py) carries the other '
-                  'clauses as full statements (`*_statement`, all accepted runs = all schedules); proved are their step-level parts '
-                  '(`*_partial`): a send is accepted only after everything that had arrived was drained; a sleeper continues only after '
-                  'its delay; the read loop leaves with a time-out only after an empty recv past the time-out; after a closed recv only '
-                  'closeConnection and the update is_connected=false are possible before anything else; an on-demand reconnect goes on '
-                  'only if the interval has passed since the recorded last attempt and every attempt is recorded; callbacks run one by '
-                  'one, each once.  state_visible_fails: the full state clause is FALSE for the code that exists (recorded finding).  '
-                  'Every clause is judged by its Lean monitor on every run of the real StringIO/BytesIO under the deterministic '
-                  'scheduler, and every run is replayed through the model.',
+    'level_text': 'Proved for ALL accepted runs of the transaction model (= all schedules of any number of callers, all device behaviours, all '
+                  'non-decreasing clocks; the model is an acceptor of time-stamped event sequences with one event per primitive on shared '
+                  'state and per-caller program counters following io.py): lock_exclusive; multicomm_atomic (between two sends of one call '
+                  'every send is that caller\'s; monitor soundness multicommAtomicB_sound); stale_discarded_run and reply_pairing_run (every '
+                  'completed reply is the first line / first rlen bytes of what ARRIVED AFTER the caller\'s own last send; under in-order '
+                  'answers it is the device\'s answer to that send); delays_honoured_run and delays_honoured_return (consecutive sends of a '
+                  'multicomm, and its return, respect the delay of the request sent before); state_visible_run (closed recv -> update '
+                  'is_connected=false before the call returns); reconnect_rate_limited (an on-demand attempt comes >= pollinterval after every '
+                  'earlier attempt, under AttemptsAtomic = the effect of accessLock, which is a monitored clause on the implementation).  '
+                  'Proved for all inputs: framing_chunk_independent (+_bytes, _eq_unchunked) for AsynConn.readline/readbytes.  Step-level only '
+                  '(`*_partial`): fails_within_timeout, callbacks_once.  state_visible_fails: the clause "is_connected is not set back to true '
+                  'without a connect" is FALSE for the code that exists (recorded finding, counter-run proved).  Every clause is judged by its '
+                  'Lean monitor on every run of the real StringIO/BytesIO under the deterministic scheduler, and every run is replayed through '
+                  'the model (0 rejected events).',
     'level_note': 'Trusted: Lean kernel + axioms propext/Classical.choice/Quot.sound; the scripted device and FakeConn (lowest AsynConn layer: '
-                  'recv/send/flush_recv) replace sockets, select and kernel buffering; the induction from the step-level facts to whole runs '
-                  '(control-flow invariants) is NOT done in Lean — for whole runs the evidence is the monitors on sampled schedules.',
+                  'recv/send/flush_recv) replace sockets, select and kernel buffering; the run-level theorems for replies are stated at the event '
+                  'that completes a reply (model state), their link to the `ret`-window form of the monitors is by the model\'s `ret` guard, not '
+                  'a separate theorem; fails_within_timeout and callbacks_once are proved step-level only.',
     'trusted': [
         'FakeConn.recv blocks at most AsynConn.timeout (1 s) and returns one device chunk at a time; flush_recv drains what has arrived (as AsynTcp)',
         'no byte arrives between the end of flush_recv and the send (same virtual instant)',
         'the virtual clock of vlib.sched (one tick per clock read); clock slack of 300 us per step in the time clauses',
-        'instrumentation from outside: lock proxy, time proxy of frappy.io, wrappers of check_connection/doPoll, parameter callback on is_connected',
+        'instrumentation from outside: lock proxy, time proxy of frappy.io, wrappers of check_connection/doPoll/registerReconnectCallback, '
+        'parameter callback on is_connected',
+        'the model has no accessLock: AttemptsAtomic is a hypothesis of reconnect_rate_limited and a monitored clause on the implementation',
     ],
     'modelled_not_verified': [
         'sockets / serial lines / select (AsynTcp, AsynSerial)',
@@ -39,7 +44,8 @@ META = {
         'fails_within_timeout: bound = max(send + timeout, last byte of the device in the window) + one recv period + delay + wait_before; a device '
         'that keeps trickling bytes without completing a reply is not "silent" and extends the wait (AsynConn checks the clock only after an empty recv)',
         'reconnect_rate_limited: attempts on behalf of communicate calls come >= pollinterval after the previous attempt of any origin; poll-driven '
-        'attempts follow the poll schedule (the stricter "any two attempts" is evaluated and reported in evidence notes only)',
+        'attempts follow the poll schedule (the stricter "any two attempts" is evaluated as reconnect_rate_limited_all, informative only)',
+        'stale_discarded/reply_pairing theorems: no successful connect between the send and the completion of the reply',
     ],
 }
 
